@@ -126,7 +126,7 @@ def run_shard(tier: str, seed: int, shard):
             continue
         for h in G.HEIGHTS:
             ys = y_grid(h, tier, seed)
-            check_term(acc, cls, p, h, ys)
+            acc.guard({"term": cls, "params": p, "height": h, "y": ys[0]}, check_term, acc, cls, p, h, ys)
             acc.extra["parameterisations"] += 1
         if idx == chunk:
             t = G.make_term(cls, "t", p, 0.7)
@@ -157,5 +157,5 @@ def replay(case: dict):
         check_refusals(acc, "quick", 0)
         return [v for v in acc.violations if v["sig"].get("term") == cls]
     ys = sorted({float(case[k]) for k in ("y", "y_prev") if k in case})
-    check_term(acc, cls, [float(v) for v in case["params"]], float(case["height"]), ys)
+    acc.guard(case, check_term, acc, cls, [float(v) for v in case["params"]], float(case["height"]), ys)
     return acc.violations
